@@ -183,6 +183,27 @@ class _Flow(Exception):
     pass
 
 
+class _ExprRaise(Exception):
+    """an expression that raises on this path (integer division by a concrete zero): the statement it is part of becomes a raising exit"""
+
+    def __init__(self, exc):
+        super().__init__(exc)
+        self.exc = exc
+
+
+def _python_int(v):
+    """a plain python integer (a constant, len(..), x.size): `//` and `%` by zero RAISE for these (numpy arrays and scalars only warn)"""
+    if not isinstance(v, Form):
+        return False
+    q = v.rational()
+    if q is not None:
+        return q.denominator == 1
+    a = v.single_atom()
+    if a is None or v != Form.atom(a):
+        return False
+    return (a[0] == "sym" and a[1].endswith(".size")) or (a[0] == "attr" and a[2] == "size") or (a[0] == "fn" and a[1] in ("len", "siglen", "size") and not a[3])
+
+
 class State:
     def __init__(self, env=None, facts=None, conds=None):
         self.env = env if env is not None else {}
@@ -562,7 +583,13 @@ class Interp:
                 if isinstance(sub, ast.Name) and isinstance(sub.ctx, ast.Store):
                     st.env[sub.id] = Form.atom(("opaque", f"{sub.id} after unmodelled {type(s).__name__}@{getattr(s, 'lineno', 0)}"))
             return
-        m(s, st, fi, depth)
+        try:
+            m(s, st, fi, depth)
+        except _ExprRaise as ex:
+            if not self._stack:
+                raise
+            self._stack[-1][1].append(Outcome("raise", None, list(st.conds), s, ex.exc))
+            st.live = False
 
     def s_Expr(self, s, st, fi, depth):
         if isinstance(s.value, ast.Constant):
@@ -1931,8 +1958,16 @@ class Interp:
         # string / tuple concatenation & repetition
         if t is ast.Add and isinstance(l, TupleV) and isinstance(r, TupleV):
             return TupleV(l.items + r.items, l.kind)
+        if t is ast.BitOr and isinstance(l, DictV) and isinstance(r, DictV):
+            d_ = DictV(list(l.items))           # d | {...} / d |= {...}: the right operand's entries win
+            for k_, v_ in r.items:
+                d_.set(k_, v_)
+            return d_
         if t is ast.Add and isinstance(l, Const) and isinstance(r, Const) and isinstance(l.v, str) and isinstance(r.v, str):
             return Const(l.v + r.v)
+        if t is ast.Add and any(_is_text(x) == "fstr" for x in (l, r)) and all(_is_text(x) for x in (l, r)):
+            # f'{a}' + ''.join(b) is the text f'{a}{"".join(b)}': one command string, the order of the pieces kept
+            return _mk_fstr(_text_parts(l) + _text_parts(r))
         if t is ast.Mult and isinstance(l, Const) and isinstance(l.v, str) and isinstance(r, Form) and r.rational() is not None:
             return Const(l.v * int(r.rational()))
         if t is ast.Mult and isinstance(r, Const) and isinstance(r.v, str) and isinstance(l, Form) and l.rational() is not None:
@@ -1961,6 +1996,8 @@ class Interp:
                 return lf / rf
             if t is ast.Pow:
                 return fpow(lf, rf)
+            if t in (ast.FloorDiv, ast.Mod) and rf.is_zero() and _python_int(lf):
+                raise _ExprRaise("ZeroDivisionError")        # n // 0, n % 0 on python integers
             # integer-valued constant folding
             a, b = lf.rational(), rf.rational()
             if a is not None and b is not None and a.denominator == 1 and b.denominator == 1:
@@ -2103,6 +2140,13 @@ class Interp:
             i = int(idx.rational())
             if -len(base.items) <= i < len(base.items):
                 return base.items[i]
+        if isinstance(base, Form) and isinstance(idx, SliceV) and _is_sequence_value(base) is True \
+                and isinstance(idx.lo, Const) and idx.lo.v is None and isinstance(idx.step, Const) and idx.step.v is None \
+                and isinstance(idx.hi, Form) and idx.hi.rational() is not None and idx.hi.rational().denominator == 1 and 0 <= idx.hi.rational() <= 4:
+            # x.shape[:k] of an array whose number of dimensions is known: the tuple of its first min(ndim, k) extents
+            nd = self._const_of(self._builtin("len", [base], {}, st, fi, depth, n), st)
+            if isinstance(nd, int) and not isinstance(nd, bool) and 0 <= nd <= 8:
+                return TupleV([mk_idx(as_value(base), Form.num(i_)) for i_ in range(min(nd, int(idx.hi.rational())))], "tuple")
         if isinstance(base, TupleV) and isinstance(idx, SliceV):
             def _b(x):
                 if isinstance(x, Const) and x.v is None:
@@ -2971,7 +3015,7 @@ class Interp:
             # all((c1, c2, ...)) over a literal sequence of conditions is their conjunction
             return args[0].items[0] if len(args[0].items) == 1 else mk_fn("and" if name == "all" else "or", list(args[0].items))
         if name == "divmod" and len(args) == 2 and not kwargs and all(isinstance(a_, Form) for a_ in args):
-            return TupleV([mk_fn("floordiv", list(args)), mk_fn("mod", list(args))])          # (a // b, a % b)
+            return TupleV([self.binop(ast.FloorDiv(), args[0], args[1], st, fi, depth, n), self.binop(ast.Mod(), args[0], args[1], st, fi, depth, n)])   # (a // b, a % b)
         if name in ("list", "tuple") and len(args) == 1:
             if isinstance(args[0], TupleV):
                 return TupleV(args[0].items, name)
@@ -3142,9 +3186,36 @@ def _format_as_fstr(template, args, kwargs):
     return _mk_fstr(ps)
 
 
+def _is_text(v):
+    """'fstr' / 'strjoin' / 'const' when the value is known to be a string built from pieces, else None"""
+    if isinstance(v, Const):
+        return "const" if isinstance(v.v, str) else None
+    a = v.single_atom() if isinstance(v, Form) else None
+    if a is not None and a[0] == "fn" and a[1] in ("fstr", "strjoin"):
+        return a[1]
+    return None
+
+
+def _text_parts(v):
+    if isinstance(v, Const):
+        return [v]
+    a = v.single_atom()
+    if a[1] == "fstr":
+        return list(a[2])
+    return [mk_fn("fmt", [v, NONE])]
+
+
 def _mk_fstr(parts):
     """string built from literal text and formatted values: constant strings formatted without a spec are literal text,
-    adjacent literal pieces are one piece"""
+    adjacent literal pieces are one piece, a piece that is itself such a string and is put in as it is (no spec) contributes its pieces"""
+    flat = []
+    for p in parts:
+        a = p.single_atom() if isinstance(p, Form) else None
+        if a is not None and a[0] == "fn" and a[1] == "fmt" and isinstance(a[2][1], Const) and a[2][1].v is None and _is_text(a[2][0]) == "fstr":
+            flat.extend(a[2][0].single_atom()[2])
+        else:
+            flat.append(p)
+    parts = flat
     out = []
     for p in parts:
         if isinstance(p, Form):
